@@ -32,6 +32,11 @@ const ATOMS: &[Atom] = &[
     Atom { name: "b", attr: "b", content: "b", cdata: Some("b"), expect: "b" },
     Atom { name: "gt", attr: "&gt;", content: ">", cdata: Some(">"), expect: ">" },
     Atom { name: "ampamp", attr: "&amp;amp;", content: "&amp;amp;", cdata: Some("&amp;"), expect: "&amp;" },
+    // an escaped '$' protects a variable reference; brackets which are never closed are just text
+    Atom { name: "escaped-dollar", attr: "\\$v", content: "\\$v", cdata: Some("\\$v"), expect: "$v" },
+    Atom { name: "close-braces", attr: "}} ", content: "}} ", cdata: Some("}} "), expect: "}} " },
+    // `{{` without a closing `}}` (only ever used as the last atom of a string)
+    Atom { name: "open-braces", attr: "{{ x", content: "{{ x", cdata: Some("{{ x"), expect: "{{ x" },
 ];
 
 #[derive(Clone, Copy, PartialEq, Debug)]
@@ -41,8 +46,20 @@ enum Carrier {
     CData,
     TextElAttr,
     TextElContent,
+    /// text attribute on a shape written with start and end tags (no content / a line break as content)
+    AttrEndTag,
+    AttrWsContent,
+    /// content interrupted by a comment; content made of a text piece followed by a CDATA section
+    ContentComment,
+    ContentMixed,
+    /// svgdx's own shapes as carriers
+    BoxContent,
+    PointContent,
 }
-const CARRIERS: &[Carrier] = &[Carrier::Attr, Carrier::Content, Carrier::CData, Carrier::TextElAttr, Carrier::TextElContent];
+const CARRIERS: &[Carrier] = &[
+    Carrier::Attr, Carrier::Content, Carrier::CData, Carrier::TextElAttr, Carrier::TextElContent, Carrier::AttrEndTag, Carrier::AttrWsContent, Carrier::ContentComment, Carrier::ContentMixed,
+    Carrier::BoxContent, Carrier::PointContent,
+];
 
 fn strings(max: usize) -> Vec<Vec<usize>> {
     let mut out = vec![];
@@ -91,26 +108,41 @@ fn last_text(nodes: &[Node]) -> Option<&Element> {
 }
 
 fn check_string(atoms: &[usize], carrier: Carrier, placement: usize) -> CaseResult {
-    let spelled: String = atoms
-        .iter()
-        .map(|a| match carrier {
-            Carrier::Attr | Carrier::TextElAttr => ATOMS[*a].attr,
-            Carrier::Content | Carrier::TextElContent => ATOMS[*a].content,
-            Carrier::CData => ATOMS[*a].cdata.unwrap(),
-        })
-        .collect();
-    let expect: String = atoms.iter().map(|a| ATOMS[*a].expect).collect();
+    let spell = |atoms: &[usize], cdata: bool, attr: bool| -> String {
+        atoms.iter().map(|a| if attr { ATOMS[*a].attr } else if cdata { ATOMS[*a].cdata.unwrap() } else { ATOMS[*a].content }).collect()
+    };
+    let spelled: String = match carrier {
+        Carrier::Attr | Carrier::TextElAttr | Carrier::AttrEndTag | Carrier::AttrWsContent => spell(atoms, false, true),
+        Carrier::CData => spell(atoms, true, false),
+        _ => spell(atoms, false, false),
+    };
+    let mut expect: String = atoms.iter().map(|a| ATOMS[*a].expect).collect();
     let (extra, vertical, pre) = match placement {
         0 => ("", false, false),
         1 => (" text-loc=\"tl\" class=\"d-text-pre d-red\"", false, true),
         _ => (" text-loc=\"r\" class=\"d-text-vertical d-text-outside\"", true, false),
     };
+    let half = atoms.len() / 2;
     let el = match carrier {
         Carrier::Attr => format!("<rect xy=\"10 20\" wh=\"30 10\"{extra} text=\"{spelled}\"/>"),
         Carrier::Content => format!("<rect xy=\"10 20\" wh=\"30 10\"{extra}>{spelled}</rect>"),
         Carrier::CData => format!("<rect xy=\"10 20\" wh=\"30 10\"{extra}><![CDATA[{spelled}]]></rect>"),
         Carrier::TextElAttr => format!("<text xy=\"10 20\"{extra} text=\"{spelled}\"/>"),
         Carrier::TextElContent => format!("<text xy=\"10 20\"{extra}>{spelled}</text>"),
+        Carrier::AttrEndTag => format!("<rect xy=\"10 20\" wh=\"30 10\"{extra} text=\"{spelled}\"></rect>"),
+        Carrier::AttrWsContent => format!("<rect xy=\"10 20\" wh=\"30 10\"{extra} text=\"{spelled}\">\n  </rect>"),
+        Carrier::ContentComment => format!("<rect xy=\"10 20\" wh=\"30 10\"{extra}>{}<!-- a - comment -->{}</rect>", spell(&atoms[..half], false, false), spell(&atoms[half..], false, false)),
+        Carrier::ContentMixed => {
+            // a text piece which is only white space next to a CDATA section is source layout, not text
+            // (judged on the source text of the piece, before escapes such as \n are interpreted)
+            let first = spell(&atoms[..half], false, false);
+            if first.trim().is_empty() {
+                expect = atoms[half..].iter().map(|a| ATOMS[*a].expect).collect();
+            }
+            format!("<rect xy=\"10 20\" wh=\"30 10\"{extra}>{}<![CDATA[{}]]></rect>", spell(&atoms[..half], false, false), spell(&atoms[half..], true, false))
+        }
+        Carrier::BoxContent => format!("<box xy=\"10 20\" wh=\"30 10\"{extra}>{spelled}</box>"),
+        Carrier::PointContent => format!("<point xy=\"10 20\"{extra}>{spelled}</point>"),
     };
     let doc = format!("<svg><var v=\"V&amp;\"/>{el}</svg>");
     let names: Vec<&str> = atoms.iter().map(|a| ATOMS[*a].name).collect();
@@ -161,6 +193,49 @@ fn check_string(atoms: &[usize], carrier: Carrier, placement: usize) -> CaseResu
                         }
                     }
                 },
+            }
+        }
+    }
+    // Open finding (KNOWN_FINDINGS.txt): attribute values are evaluated twice (which the indirect-variable
+    // feature `$$name` relies on), so the backslash of an escaped `\$v` is consumed by the first pass and the
+    // second pass expands `$v`. A case belongs to this class only if it contains the escaped-dollar atom AND
+    // what was observed is exactly the expected text with `$v` replaced by the variable's value.
+    if let (Some(v), Outcome::Ok(b)) = (viol.as_mut(), &out) {
+        if names.contains(&"escaped-dollar") && matches!(v.clause.as_str(), "text-differs" | "multiline-text-differs") {
+            let observed = xmlref::parse_tree(b, Mode::Document)
+                .ok()
+                .and_then(|t| {
+                    last_text(&t).map(|e| {
+                        let (tspans, all) = text_nodes(e);
+                        if tspans.is_empty() { all } else { tspans.join("\n") }
+                    })
+                })
+                .unwrap_or_default();
+            // compared as a multiset of lines (vertical text lists its lines in reverse order)
+            let lines = |s: &str| -> Vec<String> {
+                let mut l: Vec<String> = norm_lines(&s.replace('\u{200B}', "").replace('\u{00A0}', " ")).split('\n').filter(|x| !x.is_empty()).map(|x| x.to_string()).collect();
+                l.sort();
+                l
+            };
+            // every way of expanding at least one of the `$v` occurrences
+            let parts: Vec<&str> = expect.split("$v").collect();
+            let n = parts.len() - 1;
+            let mut in_class = false;
+            for mask in 1u32..(1 << n.min(8)) {
+                let mut cand = String::new();
+                for (i, p) in parts.iter().enumerate() {
+                    cand.push_str(p);
+                    if i < n {
+                        cand.push_str(if mask >> i & 1 == 1 { "V&" } else { "$v" });
+                    }
+                }
+                if lines(&cand) == lines(&observed) {
+                    in_class = true;
+                    break;
+                }
+            }
+            if in_class {
+                v.signature = "C19/escaped-dollar-expanded-by-second-evaluation".into();
             }
         }
     }
@@ -404,8 +479,15 @@ pub fn run(tier: Tier) -> i32 {
     let k = tier.pick(2, 3);
     let strs = strings(k);
     let mut scases: Vec<(Vec<usize>, Carrier, usize)> = Vec::new();
+    let open_braces = ATOMS.len() - 1;
     for s in &strs {
+        if s.iter().take(s.len().saturating_sub(1)).any(|a| *a == open_braces) {
+            continue;
+        }
         for c in CARRIERS {
+            if s.last() == Some(&open_braces) && matches!(c, Carrier::ContentComment | Carrier::ContentMixed) && s.len() == 1 {
+                // (with a single atom the first piece is empty; nothing special, kept)
+            }
             for pl in 0..3 {
                 scases.push((s.clone(), *c, pl));
             }
